@@ -38,6 +38,18 @@ def _case(draw):
                    # history on the same result object: an earlier look-up of the same *number* in another unit
                    "decoy_unit": draw(st.one_of(st.none(), st.sampled_from(DIST)))})
     beyond = R * (1 + draw(st.floats(0.01, 1.0))) + 10.0
+    lob = None
+    if draw(st.integers(0, 5)) == 0:
+        # arcing trajectory of a slow, steeply lobbed projectile in a head wind, recorded with time-step rows: near and after the
+        # apex the wind carries it back, so the rows are not in order of distance (ranges are then taken within the furthest row)
+        spec.update(mv=draw(st.floats(200.0, 800.0)), look=0.0, rel=draw(st.floats(78.0, 89.5)) * gen.DEG, cant=0.0,
+                    winds=[[draw(st.floats(20.0, 90.0)), math.pi + draw(st.floats(-0.3, 0.3)), 1e8]])
+        lob = {"cMinimumVelocity": 0.0, "cMaximumDrop": -draw(st.floats(5.0, 400.0))}
+        R = draw(st.floats(30.0, 600.0))
+        qs = [dict(q, at_ft=q["at_ft"] / 3000.0 * R, look=None) for q in qs]
+        return {"shot": spec, "R": R, "zero_ft": zero_ft, "step": R / draw(st.integers(2, 10)), "queries": qs, "beyond_ft": R * 4 + 3000.0,
+                "extra_time": draw(st.sampled_from([0.25, 0.5, 1.0])), "lob": lob,
+                "pref": draw(st.sampled_from([None, None, "Meter", "Foot"]))}
     return {"shot": spec, "R": R, "zero_ft": zero_ft, "step": R / n, "queries": qs, "beyond_ft": beyond,
             "extra_time": draw(st.sampled_from([0.0, 0.0, 0.1])),
             # the request itself in a generated unit (metric steps accumulate a few ulp), and a query at exactly that range
@@ -56,12 +68,15 @@ def _q(ft, unit, pref=None):
 def check(case):
     r = Res()
     spec = case["shot"]
-    calc = build.calculator()
+    calc = build.calculator(case.get("lob"))
     sh = build.shot(spec)
-    try:
-        calc.set_weapon_zero(sh, D.Foot(case["zero_ft"]))
-    except (pb.ZeroFindingError, pb.RangeError):
-        r.label("zero-failed")
+    if case.get("lob"):
+        r.label("lobbed-into-head-wind")
+    else:
+        try:
+            calc.set_weapon_zero(sh, D.Foot(case["zero_ft"]))
+        except (pb.ZeroFindingError, pb.RangeError):
+            r.label("zero-failed")
     fu = case.get("fire_unit", "Foot")
     rng_val = round(ref.convert(case["R"], "Foot", fu), 1 if fu in ("Meter", "Yard", "Foot") else 4)
     n_steps = case.get("n", 20)
@@ -98,7 +113,8 @@ def check(case):
     apex = max(range(n), key=lambda i: drops[i])
     nt = False
     for q in case["queries"]:
-        at_ft = min(q["at_ft"], rows[-1].distance.raw_value / 12.0 * (1 - 1e-12))
+        far = max(row.distance.raw_value for row in rows) if case.get("lob") else rows[-1].distance.raw_value
+        at_ft = min(q["at_ft"], far / 12.0 * (1 - 1e-12))
         prev = None
         for h_in in q["h_in"]:
             kw = {}
@@ -176,10 +192,13 @@ def check(case):
                 r.bad("C16:target-row", f"request at the fired range {rng_val!r} {fu} raised although row {exp_a} reaches it")
             r.label("at-fired-range:raised")
     # beyond the computed trajectory
+    far_ft = max(row.distance.raw_value for row in rows) / 12.0
+    if any(rows[i + 1].distance.raw_value < rows[i].distance.raw_value for i in range(n - 1)):
+        r.label("rows-not-in-order-of-distance")
     for u in (None, "Meter"):
         try:
-            hit.index_at_distance(D.Foot(max(case["beyond_ft"], rows[-1].distance.raw_value / 12.0 + 10.0) / (3.0 if u is None else 0.3048)))
-            hit.danger_space(_q(max(case["beyond_ft"], rows[-1].distance.raw_value / 12.0 + 10.0), u, pref), D.Inch(10.0))
+            hit.index_at_distance(D.Foot(max(case["beyond_ft"], far_ft + 10.0) / (3.0 if u is None else 0.3048)))
+            hit.danger_space(_q(max(case["beyond_ft"], far_ft + 10.0), u, pref), D.Inch(10.0))
         except DELIBERATE:
             continue
         r.bad("C16:beyond-trajectory-accepted", f"asking {case['beyond_ft']!r} ft beyond a trajectory ending at {rows[-1].distance.raw_value / 12.0!r} ft returned a result")
